@@ -97,7 +97,7 @@ SPEC['C09'] = ('Consistency is decided by the dependency checker on a timely sta
   ('C09_decides_consistent', 'Local', 'check_deps_consistent', 'validation: Consistent from the dependency own checker on its stored stamp => validation continues'),
   ('C09_decides_inconsistent', 'Local', 'check_deps_inconsistent', 'validation: Inconsistent => the owner is not reused'),
 ], 'For arbitrary checker records.')
-SPEC['C16'] = ('Build behaviour is a deterministic function of the history', ['Sorting', 'DagWF', 'DagRun', 'Queue', 'Determinism'], [
+SPEC['C16'] = ('Build behaviour is a deterministic function of the history', ['Sorting', 'DagWF', 'DagRun', 'Queue', 'Determinism', 'DetStore'], [
   ('C16_sort_order_independent', 'Sorting', 'sort_by_order_independent',
    'the only places where the code iterates unordered containers (the two change sets of reorder_nodes, the bottom-up queue) sort by unique ranks: the result is independent of the arrival order'),
 ], 'The model is a function of the history by construction; what the theorems add: the ITERATION ORDER of the unordered containers the code iterates (the two HashSets of reorder_nodes; the push order of the bottom-up queue) does not reach any result. The runtime part (hash seeds, processes, allocation addresses) is decided by two-process replay.')
@@ -122,6 +122,12 @@ RAW['C16'] = [
   (forall g l x, In x (shf g l) <-> In x l) -> (forall g l x, In x (shb g l) <-> In x l) ->
   forall (ops : list (gop E)), grun_sh shf shb ops = grun ops""",
    'intros E shf shb Hf Hb ops. exact (@grun_iteration_order_independent E shf shb Hf Hb ops).'),
+  ('C16_store_add_dependency_independent_of_set_iteration_order',
+   'engine level: Store::add_dependency is the one place where the engine reaches an unordered iteration; with the change sets iterated in ANY order it returns the same answer and the same world in every world that satisfies the store invariant, i.e. in every reachable world (C06_store_invariant_every_reachable_state)',
+   """  forall (shf shb : dag dep -> list node -> list node),
+  (forall g l x, In x (shf g l) <-> In x l) -> (forall g l x, In x (shb g l) <-> In x l) ->
+  forall w s d dp, StoreOK w -> add_dependency_sh shf shb w s d dp = add_dependency w s d dp""",
+   'intros shf shb Hf Hb w s d dp. exact (add_dependency_iteration_order_independent shf shb Hf Hb w s d dp).'),
   ('C16_queue_pop_independent_of_push_order',
    'Queue::pop: the task popped and the queue left behind depend on the set of queued tasks only (unique ranks), not on the order in which they were pushed',
    """  forall (w : world) (q' : list task),
